@@ -527,6 +527,22 @@ Section Decode.
     exists roots, blocks, data. rewrite (collect_some _ _ C). auto.
   Qed.
 
+  (* ... and conversely: the decision of request.Decode / response.Decode, for every byte string *)
+  Theorem decode_message_iff body d :
+    decode_message body = Some d <->
+    exists roots blocks data,
+      car_decode mh_digest true hdr_oracle body = (HdrOk (d_root d :: roots), map item_of_block blocks)
+      /\ d_store d = tbl_of blocks
+      /\ tbl_get (d_store d) (d_root d) = Some data
+      /\ message_decode_typed data = Some (d_msg d)
+      /\ root_integrity (d_root d) data = true.
+  Proof.
+    split; [apply decode_message_inv|].
+    intros [roots [blocks [data [E [S [G [M I]]]]]]].
+    unfold decode_message, decode_message_r. rewrite E, collect_map. cbv zeta.
+    rewrite <- S, G, M, I. destruct d; reflexivity.
+  Qed.
+
   (* every block of a decoded message matches its CID (C12 integrity, lifted) *)
   Theorem decode_message_integrity body d c data :
     decode_message body = Some d -> tbl_get (d_store d) c = Some data ->
